@@ -510,7 +510,7 @@ def correspond(ctx, n=None):
 
 def search(ctx, mism):
     ctx.rng.seed(f'search-{ctx.seed}')
-    r = correspond(ctx, (3000, 600) if ctx.quick else (30000, 6000))
+    r = correspond(ctx, (700, 250) if ctx.quick else (30000, 6000))
     if r['oracle_fail']:
         return min(r['oracle_fail'], key=lambda f: len(json.dumps(f, default=str)))
     return None
